@@ -144,10 +144,9 @@ def run(tier):
 # Nothing in here can produce a VIOLATION or change the exit code: these inputs are outside the statement.  A
 # disagreement between lopdf and the declared view is reported as MODEL-DRIFT with the deviation(s) it is owed to;
 # machinery trouble (a Producer file the StrictReader rejects, a vacuous run) is a ToolError as everywhere else.
+# (needsprev / afterprev / newestonly - the three XRefStm deviations of the pinned tree - were repaired by /repo e756b84;
+#  hybrid-reference histories are inside C07's statement and judged there)
 DEVIATIONS = {
-    "needsprev": "XRefStm is read only when the newest trailer also has Prev",
-    "afterprev": "the XRefStm stream is merged after the section Prev names (lookup order table, Prev, XRefStm)",
-    "newestonly": "only the newest trailer's XRefStm is used, never the XRefStm of an older section",
     "freeignored": "free entries (`f` / type 0) are not recorded: an object deleted by an update comes back",
 }
 
